@@ -15,6 +15,14 @@ CHECKS = {
             "Every listed helper is called on every list of length 0..5 (thorough 0..7) over a 3-symbol alphabet plus nil, for int/string/struct elements, with every count in [-3,len+3], predicate/transformer families and all list pairs up to length 3, and compared with an independent model; inputs are snapshotted (including sentinel-filled spare capacity) and compared after the call. Exhaustive within the bound, PRNG lists up to length 64 beyond it.",
             "Trusted: the per-helper models written from the doc comments (degenerate-parameter pins listed in DESIGN.md C03).",
             "DESIGN.md section 5, C03"),
+    "C02": ("exploration", "exact-arithmetic oracle (sign+magnitude, math/big) over exhaustive 8/16-bit sources, boundary sets and PRNG values",
+            "Every int8/uint8/int16/uint16 value, a boundary set around every target bound (+-3, +-0.25/0.5/0.75, +-1 ulp in float32/float64, NaN, Inf, -0, extremes) and PRNG values for the wide integer/float types and numeric strings are pushed through all 14 numeric conversions and ToBool, via both constructors; each result is compared with exact arithmetic under a three-zone rule (must-succeed / must-fail / either, and in all zones nil error => exact number).",
+            "Trusted: math/big and strconv for the model; 64-bit platform; zone definitions in DESIGN.md C02.",
+            "DESIGN.md section 5, C02"),
+    "C01": ("exploration", "law/observer oracle with an independent reflect-based absence predicate over a kind-complete value corpus + PRNG nesting",
+            "About 60 hand-built values covering every Go kind (incl. typed nil pointers, pointer-to-nil-pointer, nested Maybe, None) and thousands of PRNG-nested values are wrapped by Maybe.Just, JustGenerics[any] and JustGenerics[T] for 21 concrete T; every MaybeDef method and the extra conversions run under recover; observers are compared with the reference predicate, monad-law instances by observation tuples, ToMaybe by nesting depth, Clone by pointer identity/deep equality/write isolation.",
+            "Trusted: the reflect-based absent() predicate and observational equality (funcs by code pointer, NaN-tolerant).",
+            "DESIGN.md section 5, C01"),
 }
 
 NOT_YET = "check not built yet in this session (runtime monitoring applies; see DESIGN.md section 5)"
